@@ -98,7 +98,8 @@ def gen_state(rng, features=("ita", "typechange", "samestat", "sha256", "filemod
     if "stagedel" in features:
         for p, (m, c) in head.items():
             if p not in index and rng.random() < 0.4:
-                put(wt, p, (m, c if rng.random() < 0.6 else rcontent(rng), ""))
+                # (a symbolic link keeps its target: an empty target cannot be created)
+                put(wt, p, (m, c if (rng.random() < 0.6 or m == "l") else rcontent(rng), ""))
     # untracked files, ignore files
     for p in cands[-rng.choice([0, 1, 2, 3, 4]):]:
         if p not in wt and p not in index:
